@@ -130,17 +130,7 @@ def _np_dtype(name):
 
 
 def _base(sc):
-    spec = dict(sc["data"])
-    rec = spec["recipe"]
-    if rec in ("identical", "scaled_copy"):
-        spec["recipe"] = "noise"
-        spec["channels"] = 1
-        x = SC.make_record(spec)
-        if sc["data"]["channels"] == 2:
-            y = x.copy() if rec == "identical" else -2.5 * x
-            return np.vstack([x, y])
-        return x
-    return SC.make_record(spec)
+    return SC.make_record(sc["data"])
 
 
 def materialise(sc):
